@@ -46,12 +46,15 @@ def cases(draw, tier):
             "noise": draw(st.sampled_from([0.0, 0.3]))}
 
 
-def density(c, eta):
+def density(c, eta, second=False):
+    """The density of the case; second=True: another one (other modes, other noise) for a second pass through the same
+    solver objects."""
     r, q, z = eta[:3]
-    rng = np.random.default_rng(c["seed"])
+    rng = np.random.default_rng(c["seed"] + (7 if second else 0))
     R = np.zeros((len(r), len(q), len(z)))
     s = (r - r[0]) / (r[-1] - r[0])
-    for m, kz, amp, ph in c["modes"]:
+    modes = [(1 - m, kz + 1, 0.7 * amp, ph + 1.0) for m, kz, amp, ph in c["modes"]] if second else c["modes"]
+    for m, kz, amp, ph in modes:
         R += amp * (0.3 + s * (1 - s))[:, None, None] * np.cos(m * q[None, :, None] + kz * 2 * np.pi * np.arange(len(z))[None, None, :] / len(z) + ph)
     if c["noise"]:
         R += c["noise"] * rng.standard_normal(R.shape)
@@ -80,10 +83,20 @@ def _rank(ctx, c):
     rho.setLayout('v_parallel_2d')
     rs.QN.findPotential(phi)
     out["phi"] = sim.piece(phi)
+    # a second density through the same solver, grids and layouts (what every later time step does)
+    sim.fill(rho, density(c, eta, second=True).astype(complex))
+    rs.QN.getModes(rho)
+    rho.setLayout('mode_solve')
+    phi.setLayout('mode_solve')
+    rs.QN.solveEquation(phi, rho)
+    phi.setLayout('v_parallel_2d')
+    rho.setLayout('v_parallel_2d')
+    rs.QN.findPotential(phi)
+    out["phi_second"] = sim.piece(phi)
     return out
 
 
-def reference_phi(c, eta, rbasis, consts):
+def reference_phi(c, eta, rbasis, consts, second=False):
     """numpy.fft + dense Galerkin per mode + inverse transform."""
     r, q, z = [np.asarray(e, dtype=float) for e in eta[:3]]
     cd = advect.const_dict(consts)
@@ -105,7 +118,7 @@ def reference_phi(c, eta, rbasis, consts):
     K0_m0 = None
     if c["adiabatic"] and c["chi"] == 1:
         K0_m0 = fem.DenseFEM(space, rbasis, 7, lambda x: -1.0 + 0 * x, Bf, lambda x: 0.0 * x, Df, Ef).K0
-    R = density(c, eta)
+    R = density(c, eta, second)
     Rh = np.fft.fft(R, axis=1)
     mv = np.fft.fftfreq(len(q), 1.0 / len(q))
     Ph = np.empty_like(Rh)
@@ -147,13 +160,23 @@ def predicate(c):
         raise Violation("C15:phi", "process grid %s chi=%d %s: phi at global (r,theta,z)=%s is %r, reference %r (|diff| %.3e tol %.3e)"
                         % (c["nprocs"], c["chi"], "adiabatic" if c["adiabatic"] else "kinetic", idx, phi[idx], want[idx],
                            err[idx], tol))
+    want2, _, worst2 = reference_phi(c, eta, g.getSpline(0), consts, second=True)
+    phi2 = sim.assemble([r["phi_second"] for r in res], shape, "phi_second")
+    tol2 = 1e4 * EPS * max(worst, worst2) * (float(np.abs(want2).max()) + 1e-300)
+    err2 = np.abs(phi2 - want2)
+    if not (err2 <= tol2).all():
+        idx = tuple(int(x) for x in np.argwhere(~(err2 <= tol2))[0])
+        raise Violation("C15:phi:second-solve", "process grid %s chi=%d %s: second density through the same solver objects: phi at "
+                        "global (r,theta,z)=%s is %r, reference %r (|diff| %.3e tol %.3e)"
+                        % (c["nprocs"], c["chi"], "adiabatic" if c["adiabatic"] else "kinetic", idx, phi2[idx], want2[idx],
+                           err2[idx], tol2))
     if np.abs(phi.imag).max() > tol:
         raise Violation("C15:real", "real density gives a potential with imaginary part %.3e (tol %.3e)" % (np.abs(phi.imag).max(), tol))
     nzm = int((np.abs(Rh).max(axis=(0, 2)) > 1e-9 * np.abs(Rh).max()).sum())
     return {"nontrivial": nzm >= 2 and P >= 2, "labels": ["P=%d" % P, "chi%d" % c["chi"],
                                                          "adiabatic" if c["adiabatic"] else "kinetic",
                                                          "ntheta-%s" % ("even" if cfg["npts"][1] % 2 == 0 else "odd")],
-            "evals": 3}
+            "evals": 4}
 
 
 # ----------------------------------------------------------------------------------------------
